@@ -78,35 +78,51 @@ def rule_r1(chk, m):
              "self.serial <op> other.serial with <op> the dunder's operator; __hash__ depends only on (serial, frequency); "
              "the guard raises unless the two types are equal; no subclass overrides a comparison", floor=10)
     meths = m.methods("Period")
+    import operator as _operator
+    py_op = {ast.Eq: _operator.eq, ast.NotEq: _operator.ne, ast.Lt: _operator.lt, ast.LtE: _operator.le, ast.Gt: _operator.gt, ast.GtE: _operator.ge}
     for name, op in CMP_OPS.items():
         f = meths.get(name)
         if f is None:
             raise AnalysisError(f"anchor vanished: Period.{name}")
         chk.saw(m, f"Period.{name}")
-        ps = params(f)
-        g = _guarded(f, m)
-        rets = [n for n in walk_no_nested(f) if isinstance(n, ast.Return)]
-        ok_cmp = False
-        detail = "return is not a single comparison of serials"
-        if len(rets) == 1 and isinstance(rets[0].value, ast.Compare) and len(rets[0].value.ops) == 1:
-            c = rets[0].value
-            l, r = unparse(c.left), unparse(c.comparators[0])
-            if (l, r) == (f"{ps[0]}.serial", f"{ps[1]}.serial"):
-                ok_cmp = type(c.ops[0]) is op
-            elif (l, r) == (f"{ps[1]}.serial", f"{ps[0]}.serial"):
-                ok_cmp = type(c.ops[0]) is MIRROR[op]
-            detail = f"returns {unparse(c)}"
-        chk.ob("C09-R1", f"dates.Period.{name}[operator]", ok_cmp, detail, m.loc(f))
-        chk.ob("C09-R1", f"dates.Period.{name}[guard]", g,
-               "frequency guard precedes the comparison" if g else "no _check_periods guard before comparing serials", m.loc(f))
+        # by finite evaluation on three pairs of serials with a recording frequency guard (helpers of the class / module are followed)
+        bad_op = bad_guard = None
+        try:
+            for a_, b_ in ((1, 2), (2, 2), (3, 2)):
+                events = []
+                class _P(fin.FinObj):
+                    pass
+                me, other = _P(frequency="F"), _P(frequency="F")
+                type(me).serial = property(lambda self_, _v={id(me): a_, id(other): b_}: events.append("serial read") or _v[id(self_)])
+                funcs = fin.module_funcs(m, {"_check_periods": lambda *x_: events.append("guard")})
+                funcs["_check_periods"] = lambda *x_: events.append("guard")
+                got = fin.run_function(f, {params(f)[0]: me, params(f)[1]: other}, funcs, methods=meths)
+                if got is not py_op[op](a_, b_):
+                    bad_op = bad_op or f"{name}: serial {a_} against serial {b_} gives {got}, expected {py_op[op](a_, b_)}"
+                if "guard" not in events or ("serial read" in events and events.index("serial read") < events.index("guard")):
+                    bad_guard = bad_guard or "no _check_periods guard before comparing serials"
+            chk.ob("C09-R1", f"dates.Period.{name}[operator]", bad_op is None, bad_op or f"compares the serials with the operator of {name}", m.loc(f), sure=True)
+            chk.ob("C09-R1", f"dates.Period.{name}[guard]", bad_guard is None, bad_guard or "frequency guard precedes the comparison", m.loc(f), sure=True)
+        except (fin.NotFinite, fin.Raised, TypeError, AttributeError) as ex:
+            chk.undecided("C09-R1", f"dates.Period.{name}[operator]", f"not finitely evaluable: {type(ex).__name__}: {ex}", m.loc(f))
+            g = _guarded(f, m)
+            chk.ob("C09-R1", f"dates.Period.{name}[guard]", g, "frequency guard precedes the comparison" if g else "no _check_periods guard before comparing serials", m.loc(f))
     # hash
     f = meths.get("__hash__")
     if f is None:
         raise AnalysisError("anchor vanished: Period.__hash__")
     chk.saw(m, "Period.__hash__")
-    attrs = {dotted(n) for n in ast.walk(f) if isinstance(n, ast.Attribute) and dotted(n) and dotted(n).startswith("self.")}
-    ok = "self.serial" in attrs and attrs <= {"self.serial", "self.frequency"}
-    chk.ob("C09-R1", "dates.Period.__hash__", ok, f"hash reads {sorted(attrs)} (equal periods: same class => same serial and frequency)", m.loc(f))
+    try:
+        hs = {}
+        for ser, fr in ((1, "Q"), (2, "Q"), (1, "M")):
+            hs[(ser, fr)] = fin.run_function(f, {params(f)[0]: fin.FinObj(serial=ser, frequency=fr)}, {"hash": lambda x_: ("hash", x_), "int": int}, methods=meths)
+        ok = len(set(map(repr, hs.values()))) >= 2 and repr(hs[(1, "Q")]) != repr(hs[(2, "Q")])
+        chk.ob("C09-R1", "dates.Period.__hash__", ok, "hash depends on the serial (and at most on the frequency)" if ok else
+               f"periods with different serials hash alike: {hs}", m.loc(f), sure=True)
+    except (fin.NotFinite, fin.Raised, TypeError, AttributeError) as ex:
+        attrs = {dotted(n) for n in ast.walk(f) if isinstance(n, ast.Attribute) and dotted(n) and dotted(n).startswith("self.")}
+        ok = "self.serial" in attrs and attrs <= {"self.serial", "self.frequency"}
+        chk.ob("C09-R1", "dates.Period.__hash__", ok, f"hash reads {sorted(attrs)} (equal periods: same class => same serial and frequency)", m.loc(f))
     # the guard itself
     g = m.func("_check_periods")
     chk.saw(m, "_check_periods")
@@ -251,7 +267,7 @@ class _PeriodVal:
 def rule_r3(chk, m):
     chk.rule("C09-R3", "finite evaluation of the extracted integer forms: to_year_segment(_serial_from_ysf(y, s, f)) == (y, s) and "
              "back, for f in {1,2,4,12}, every segment, years incl. negative and 0; create_soy/eoy/eopy/tty and shift keywords "
-             "land on segment 1 / f / f of year-1 / serial-1 unless segment 1 / serial-f", floor=20)
+             "land on segment 1 / f / f of year-1 / serial-1 unless segment 1 / serial-f", floor=20, shape_independent=True)
     ysf = m.func("_serial_from_ysf")
     tys = m.func("RegularPeriodMixin.to_year_segment")
     fys = m.func("RegularPeriodMixin.from_year_segment")
@@ -593,7 +609,7 @@ def rule_r5(chk, m):
 def rule_r6(chk, m):
     chk.rule("C09-R6", "every range(a, b, step) built for a span has b = <end> + _sign(step) with the same step; "
              "__len__/__iter__/__getitem__ all use _serials; reverse swaps ends and negates step; shifts move both ends equally",
-             floor=10)
+             floor=10, shape_independent=True)
     sites = [(f"Span.{n}", f) for n, f in m.methods("Span").items()] + [("periods_from_until", m.func("periods_from_until"))]
     n_ranges = 0
     for q, f in sites:
@@ -601,7 +617,8 @@ def rule_r6(chk, m):
             if isinstance(n, ast.Call) and dotted(n.func) == "range" and len(n.args) == 3:
                 n_ranges += 1
                 chk.saw(m, q)
-                a, b, c = n.args
+                from ..core import inline_locals as _il
+                a, b, c = (_il(f, x_) for x_ in n.args)          # locals naming the ends (first_serial, stop_serial) are substituted
                 try:
                     def call(node, conv):
                         if dotted(node.func) == "_sign" and len(node.args) == 1:
